@@ -64,15 +64,17 @@ const outPath = process.argv[2];
 writeFileSync(outPath, "");
 async function run(id, ok, recvSize, f) {
   log.length = 0; regs.length = 0; ctl.ok = ok; ctl.recvSize = recvSize;
-  let res, threw = false;
-  try { res = f(); } catch (e) { threw = true; log.push({ev: "Note", err: String(e).slice(0, 160)}); }
+  // the result is parked in a global so that it is reachable by more than a dead local while the collector is probed
+  let threw = false;
+  globalThis.__held = [];
+  try { globalThis.__held.push(f()); } catch (e) { threw = true; log.push({ev: "Note", err: String(e).slice(0, 160)}); }
   log.push({ev: "MethodEnd", threw});
   const nbuf = regs.filter(r => r.buf).length;
   if (!threw) {
     if (nbuf > 0) { await tick(); globalThis.gc(); await tick(); globalThis.gc(); }
     log.push({ev: "GcProbe", alive: regs.filter(r => r.buf && r.ref.deref() !== undefined).length});
   }
-  res = null;
+  globalThis.__held = null;
   log.push({ev: "DropResult"});
   for (const r of regs) if (!r.buf) r.reg.cb(r.held);
   for (const r of regs) if (r.buf) { log.push({ev: "Finalize"}); try { r.reg.cb(r.held); } catch (e) { log.push({ev: "Note", err: "finalizer: " + String(e).slice(0, 140)}); log.push({ev: "FinalizerThrew"}); } }
